@@ -41,3 +41,45 @@ c04_sn!(c04_skew_normal_f64, f64);
 //@ funcs: SkewNormal::<f32>::new; location; scale; shape
 //@ bounds: every triple of f32 bit patterns
 c04_sn!(c04_skew_normal_f32, f32);
+
+// ------------------------------------------------------------------------------------------
+// C03: samples are finite and never NaN; two standard normal draws unless shape == 0
+// ------------------------------------------------------------------------------------------
+macro_rules! c03_skew {
+    ($name:ident, $f:ty, $maxloc:expr, $maxsc:expr) => {
+        vproof_zstub! {
+            fn $name() {
+                let mut rng = SymRng::new(2);
+                let loc: $f = kani::any();
+                let scale: $f = kani::any();
+                let shape: $f = kani::any();
+                let d = match SkewNormal::<$f>::new(loc, scale, shape) { Ok(d) => d, Err(_) => return };
+                kani::assume(loc.abs() <= $maxloc && scale <= $maxsc && scale >= 1e-30 && shape.abs() <= 1e6);
+                let x: $f = d.sample(&mut rng);
+                vassert!(x == x, "SkewNormal sample is NaN");
+                vassert!(x.is_finite(), "SkewNormal sample is infinite");
+                vassert!(rng.pos == if shape == 0.0 { 1 } else { 2 }, "SkewNormal: one standard draw for shape 0, two otherwise");
+                kani::cover!(shape == 0.0, "shape 0");
+                kani::cover!(shape == 1.0, "shape 1");
+                kani::cover!(shape == -1.0, "shape -1");
+                kani::cover!(shape > 1.0, "general shape");
+            }
+        }
+    };
+}
+//@ id: c03_skew_normal_f64
+//@ prop: C03
+//@ tier: quick
+//@ cap: 900
+//@ funcs: SkewNormal::<f64>::new; SkewNormal::<f64>::sample (shape 0 / +-1 / general branches)
+//@ bounds: |location| <= 1e100, scale in [1e-30, 1e100], |shape| <= 1e6
+//@ assumes: utils::ziggurat, libm::sqrt by contract
+c03_skew!(c03_skew_normal_f64, f64, 1e100, 1e100);
+//@ id: c03_skew_normal_f32
+//@ prop: C03
+//@ tier: quick
+//@ cap: 900
+//@ funcs: SkewNormal::<f32>::new; SkewNormal::<f32>::sample
+//@ bounds: |location| <= 1e30, scale in [1e-30, 1e30], |shape| <= 1e6
+//@ assumes: utils::ziggurat, libm::sqrtf by contract
+c03_skew!(c03_skew_normal_f32, f32, 1e30, 1e30);
